@@ -184,6 +184,11 @@ fn deviations(toks: &[Tok]) -> Vec<Dev> {
         }
         v.push(Dev::Sep(g, " // c\n".to_string()));
         v.push(Dev::Sep(g, " //é 😀 stel x = 1; \"\n".to_string()));
+        // comments that END in a character with a meaning elsewhere, an empty comment, two comments in a row
+        v.push(Dev::Sep(g, " // pad C:\\tmp\\\n".to_string()));
+        v.push(Dev::Sep(g, " //\n".to_string()));
+        v.push(Dev::Sep(g, " // a //\n// b \"\n".to_string()));
+        v.push(Dev::Sep(g, " // {\r\n".to_string()));
         v.push(Dev::Sep(g, "  \n\t ".to_string()));
         if may_touch(&toks[g].text, &toks[g + 1].text) {
             v.push(Dev::Sep(g, String::new()));
